@@ -117,36 +117,110 @@ theorem header_scheme (req : Request) : req.header ":scheme" = some req.scheme :
   have h2 : ¬ (":scheme" = ":authority") := by decide
   simp [Request.header, h1, h2]
 
+theorem claimMatchers_cons_none (inv : Bool) (e : String × StringMatch) (es : List (String × StringMatch))
+    (h : claimPath e.1 = none) : claimMatchers inv (e :: es) = claimMatchers inv es := by
+  simp [claimMatchers, List.filterMap_cons, h]
+
+theorem claimMatchers_cons_some (inv : Bool) (e : String × StringMatch) (es : List (String × StringMatch))
+    (p : List String) (h : claimPath e.1 = some p) :
+    claimMatchers inv (e :: es) = { path := p, spec := claimSpec e.2, invert := inv } :: claimMatchers inv es := by
+  simp [claimMatchers, List.filterMap_cons, h]
+
+theorem claim_eval (re : Regex) (req : Request) (p : List String) (sm : StringMatch) (inv : Bool) :
+    ({ path := p, spec := claimSpec sm, invert := inv } : MetaMatcher).eval re req = (claimHolds re req p sm != inv) := by
+  rfl
+
+/-- One `headers` map: its ordinary entries as header matchers and its claim entries as metadata
+    matchers together say what the entries say. -/
+theorem headers_split (re : Regex) (req : Request) (l : List (String × StringMatch)) :
+    (((l.filter (fun e => !isClaimKey e)).map (fun e => translateHeaderMatch e.1 e.2)).all (fun h => h.eval re req)
+      && (claimMatchers false l).all (fun mm => mm.eval re req)) = l.all (entryHolds re req) := by
+  induction l with
+  | nil => rfl
+  | cons e es ih =>
+    rw [List.all_cons, ← ih]
+    cases hc : claimPath e.1 with
+    | none =>
+      have hk : (!isClaimKey e) = true := by simp [isClaimKey, hc]
+      have he : entryHolds re req e = headerHolds re req e := by simp [entryHolds, hc]
+      rw [List.filter_cons, if_pos hk, claimMatchers_cons_none false e es hc, List.map_cons, List.all_cons, he,
+        header_correct]
+      simp only [Bool.and_assoc]
+    | some p =>
+      have hk : ¬ ((!isClaimKey e) = true) := by simp [isClaimKey, hc]
+      have he : entryHolds re req e = claimHolds re req p e.2 := by simp [entryHolds, hc]
+      rw [List.filter_cons, if_neg hk, claimMatchers_cons_some false e es p hc, List.all_cons, he, claim_eval]
+      generalize claimHolds re req p e.2 = x
+      generalize List.all (List.map (fun e => translateHeaderMatch e.1 e.2) (List.filter (fun e => !isClaimKey e) es))
+        (fun h => h.eval re req) = y
+      generalize (claimMatchers false es).all (fun mm => mm.eval re req) = z
+      cases x <;> cases y <;> cases z <;> rfl
+
+theorem withoutHeaders_split (re : Regex) (req : Request) (l : List (String × StringMatch))
+    (hw : l.all (fun e => isClaimKey e || (req.header e.1).isSome || presenceOnly e.2 || !smHolds re e.2 "") = true) :
+    (((l.filter (fun e => !isClaimKey e)).map (fun e => translateWithoutHeader e.1 e.2)).all (fun h => h.eval re req)
+      && (claimMatchers true l).all (fun mm => mm.eval re req)) = l.all (fun e => !entryHolds re req e) := by
+  induction l with
+  | nil => rfl
+  | cons e es ih =>
+    simp only [List.all_cons, Bool.and_eq_true] at hw
+    rw [List.all_cons, ← ih hw.2]
+    cases hc : claimPath e.1 with
+    | none =>
+      have hk : (!isClaimKey e) = true := by simp [isClaimKey, hc]
+      have hk' : isClaimKey e = false := by simp [isClaimKey, hc]
+      have he : entryHolds re req e = headerHolds re req e := by simp [entryHolds, hc]
+      have hwe : ((req.header e.1).isSome || presenceOnly e.2 || !smHolds re e.2 "") = true := by
+        have := hw.1; simpa [hk'] using this
+      rw [List.filter_cons, if_pos hk, claimMatchers_cons_none true e es hc, List.map_cons, List.all_cons, he,
+        withoutHeader_correct re req e.1 e.2 hwe]
+      simp only [Bool.and_assoc]
+    | some p =>
+      have hk : ¬ ((!isClaimKey e) = true) := by simp [isClaimKey, hc]
+      have he : entryHolds re req e = claimHolds re req p e.2 := by simp [entryHolds, hc]
+      rw [List.filter_cons, if_neg hk, claimMatchers_cons_some true e es p hc, List.all_cons, he, claim_eval]
+      generalize claimHolds re req p e.2 = x
+      generalize List.all (List.map (fun e => translateWithoutHeader e.1 e.2) (List.filter (fun e => !isClaimKey e) es))
+        (fun h => h.eval re req) = y
+      generalize (claimMatchers true es).all (fun mm => mm.eval re req) = z
+      cases x <;> cases y <;> cases z <;> rfl
+
 /-- **routeMatch_correct.**  The translated `RouteMatch` accepts a request iff the `HTTPMatchRequest`
     does (the source pre-filter `applicable` is handled by `translateRoute`, see `translateRoute_some`). -/
 theorem routeMatch_correct (re : Regex) (sem : Semantics) (m : HTTPMatch) (req : Request)
     (hwf : req.wf = true) (hw : withoutOK re m req = true) :
     (translateRouteMatch sem (some m)).eval re req = matchHolds re sem m req := by
   unfold translateRouteMatch RouteMatch.eval matchHolds
-  simp only [List.all_append, all_sortByName, all_sortQByName, List.all_map]
+  simp only [List.all_append, all_sortByName, all_sortQByName]
   rw [uri_correct re sem m.ignoreUriCase m.uri req.path hwf,
       pseudo_correct re req ":method" req.method m.method (header_method req),
       pseudo_correct re req ":authority" req.authority m.authority (header_authority req),
       pseudo_correct re req ":scheme" req.scheme m.scheme (header_scheme req)]
-  have hH : m.headers.all ((fun h => h.eval re req) ∘ fun e => translateHeaderMatch e.1 e.2)
-      = m.headers.all (headerHolds re req) := by
-    apply all_congr_mem
-    intro e _; simp [header_correct]
-  have hW : m.withoutHeaders.all ((fun h => h.eval re req) ∘ fun e => translateWithoutHeader e.1 e.2)
-      = m.withoutHeaders.all (fun e => !headerHolds re req e) := by
-    apply all_congr_mem
-    intro e he
-    unfold withoutOK at hw
-    rw [List.all_eq_true] at hw
-    have := hw e he
-    simp only [Function.comp]
-    rw [withoutHeader_correct re req e.1 e.2 this]
-  have hQ : m.queryParams.all ((fun q => q.eval re req) ∘ fun e => translateQueryMatch e.1 e.2)
+  have hH := headers_split re req (sortEntries m.headers)
+  rw [all_sortEntries] at hH
+  have hw' : (sortEntries m.withoutHeaders).all
+      (fun e => isClaimKey e || (req.header e.1).isSome || presenceOnly e.2 || !smHolds re e.2 "") = true := by
+    rw [all_sortEntries]; exact hw
+  have hW := withoutHeaders_split re req (sortEntries m.withoutHeaders) hw'
+  rw [all_sortEntries] at hW
+  have hQ : (m.queryParams.map (fun e => translateQueryMatch e.1 e.2)).all (fun q => q.eval re req)
       = m.queryParams.all (queryHolds re req) := by
+    rw [List.all_map]
     apply all_congr_mem
     intro e _; simp [query_correct]
-  rw [hH, hW, hQ]
-  simp only [Bool.and_assoc]
+  rw [hQ, ← hH, ← hW]
+  generalize uriHolds re sem m.ignoreUriCase m.uri req.path = a1
+  generalize List.all (List.map (fun e => translateHeaderMatch e.1 e.2) (List.filter (fun e => !isClaimKey e) (sortEntries m.headers)))
+    (fun h => h.eval re req) = a2
+  generalize List.all (List.map (fun e => translateWithoutHeader e.1 e.2) (List.filter (fun e => !isClaimKey e) (sortEntries m.withoutHeaders)))
+    (fun h => h.eval re req) = a3
+  generalize pseudoHolds re req.method m.method = a4
+  generalize pseudoHolds re req.authority m.authority = a5
+  generalize pseudoHolds re req.scheme m.scheme = a6
+  generalize m.queryParams.all (queryHolds re req) = a7
+  generalize (claimMatchers false (sortEntries m.headers)).all (fun mm => mm.eval re req) = a8
+  generalize (claimMatchers true (sortEntries m.withoutHeaders)).all (fun mm => mm.eval re req) = a9
+  cases a1 <;> cases a2 <;> cases a3 <;> cases a4 <;> cases a5 <;> cases a6 <;> cases a7 <;> cases a8 <;> cases a9 <;> rfl
 
 theorem all_perm {α : Type} (f : α → Bool) (l l' : List α) (h : l.Perm l') : l.all f = l'.all f := by
   rw [Bool.eq_iff_iff, List.all_eq_true, List.all_eq_true]
@@ -218,9 +292,9 @@ theorem catchall_sound (re : Regex) (hre : DotStar re) (r : Route) (req : Reques
   unfold isCatchAll at h
   unfold Request.wf at hwf
   simp only [Bool.and_eq_true, List.isEmpty_iff] at h
-  obtain ⟨⟨hpath, hh⟩, hq⟩ := h
+  obtain ⟨⟨⟨hpath, hh⟩, hq⟩, hmd⟩ := h
   unfold RouteMatch.eval
-  rw [hh, hq]
+  rw [hh, hq, hmd]
   simp only [List.all_nil, Bool.and_true]
   cases hps : r.match.path with
   | pfx p =>
